@@ -10,6 +10,11 @@ package foreach
 //@ fields runningStep owned_by(run): currentStage
 //@ fields runningStep immutable: runID workflow lock executeInput enabledInput ctx cancel stageChangeHandler logger
 //@ fields runningStep atomic(set-only): closed
+// The provider and the runnable step are shared by every preparation and every run that uses them
+// (C13, C14): nothing in them is written once they are built - neither a field (including fields
+// added later) nor the contents of a map field.
+//@ fields runnableStep immutable: others
+//@ fields forEachProvider immutable: others
 //
 //@ pred wfstep(r *runningStep) = r != nil && r.lock != nil && r.stageChangeHandler != nil && r.logger != nil && r.workflow != nil && \
 //@    r.ctx != nil && r.cancel != nil && cancels(r.cancel, r.ctx) && r.executeInput != nil && r.enabledInput != nil && \
@@ -157,6 +162,10 @@ package foreach
 //@   ensures [error-is-a-failed-item] called(Execute, 1) && callres(Execute, 1, 2) != nil ==> indom(itemErrors, i)
 //@   ensures [aborted-item-is-a-failed-item] !called(Execute, 1) ==> indom(itemErrors, i)
 //@   ensures [success-stores-the-result-at-its-index] called(Execute, 1) && callres(Execute, 1, 2) == nil && callres(Execute, 1, 0) == "success" ==> itemOutputs[i] == callres(Execute, 1, 1)
+// failed.error.data is declared as a map of *success* outputs of the sub-workflow: what an item
+// returned under another output id, or beside an error, has another shape and must not be kept.
+//@   ensures [only-a-success-output-is-kept-as-the-items-result] !(called(Execute, 1) && callres(Execute, 1, 2) == nil && callres(Execute, 1, 0) == "success") ==> \
+//@        itemOutputs[i] == old(itemOutputs[i])
 //@   ensures [touches-only-its-own-index] forall j int :: 0 <= j && j < len(itemOutputs) && j != i ==> itemOutputs[j] == old(itemOutputs[j])
 //@   ensures [touches-only-its-own-error-entry] forall j int :: j != i ==> indom(itemErrors, j) == old(indom(itemErrors, j)) && itemErrors[j] == old(itemErrors[j])
 //
@@ -227,6 +236,31 @@ package foreach
 //@   requires l != nil && l.logger != nil && l.yamlParserFactory != nil && l.executorFactory != nil
 //@   requires [inputs-match-provider-schema] typeis(inputs["workflow"], string)
 //@   ensures [step-or-error] (result1 == nil) != (result == nil)
+//@   ensures [a-loop-step-wraps-a-sub-workflow-with-a-success-output] result1 == nil ==> typeis(result, *runnableStep) && wfrunnable(result.(*runnableStep))
+//
+// The lifecycle a loop step declares (proved on the function, not assumed): it is well formed as the
+// engine needs it (lifecycleOK: stage ids and dependency kinds not empty, every declared output has a
+// schema), and every output the running step reports (foreachDeclares, the definition of the ghost
+// function `declares` above) is declared by the stage it is reported for.
+//@ pred wfrunnable(r *runnableStep) = r != nil && r.workflow != nil && indom(outputSchemaOf(r.workflow), "success")
+//@ pred declaredAt(lc step.Lifecycle[step.LifecycleStageWithSchema], k int, st string, o string) = k < len(lc.Stages) && lc.Stages[k].ID == st && indom(lc.Stages[k].Outputs, o)
+//@ pred declaredIn(lc step.Lifecycle[step.LifecycleStageWithSchema], st string, o string) = len(lc.Stages) <= 8 && (declaredAt(lc, 0, st, o) || declaredAt(lc, 1, st, o) || \
+//@    declaredAt(lc, 2, st, o) || declaredAt(lc, 3, st, o) || declaredAt(lc, 4, st, o) || declaredAt(lc, 5, st, o) || declaredAt(lc, 6, st, o) || declaredAt(lc, 7, st, o))
+//@ pred stageAt(lc step.Lifecycle[step.LifecycleStageWithSchema], k int, st string) = k < len(lc.Stages) && lc.Stages[k].ID == st
+//@ pred stageOKAt(lc step.Lifecycle[step.LifecycleStageWithSchema], k int) = k >= len(lc.Stages) || (lc.Stages[k].ID != "" && \
+//@    (forall n string :: indom(lc.Stages[k].NextStages, n) ==> lc.Stages[k].NextStages[n] != "") && \
+//@    (forall o string :: indom(lc.Stages[k].Outputs, o) ==> lc.Stages[k].Outputs[o] != nil))
+//@ func (*runnableStep).Lifecycle
+//@   opt implements iface step.RunnableStep.Lifecycle
+//@   requires wfrunnable(r)
+//@   ensures [a-loop-step-always-has-a-lifecycle] result1 == nil
+//@   ensures [the-lifecycle-is-well-formed-stage-by-stage] len(result.Stages) <= 8 && stageOKAt(result, 0) && stageOKAt(result, 1) && stageOKAt(result, 2) && stageOKAt(result, 3) && \
+//@        stageOKAt(result, 4) && stageOKAt(result, 5) && stageOKAt(result, 6) && stageOKAt(result, 7)
+//@   ensures [every-output-the-step-reports-is-declared-by-its-stage] declaredIn(result, "enabling", "resolved") && declaredIn(result, "disabled", "output") && \
+//@        declaredIn(result, "closed", "result") && declaredIn(result, "outputs", "success") && declaredIn(result, "failed", "error")
+//@   ensures [the-step-starts-in-a-stage-it-declares] len(result.Stages) <= 8 && (stageAt(result, 0, result.InitialStage) || stageAt(result, 1, result.InitialStage) || \
+//@        stageAt(result, 2, result.InitialStage) || stageAt(result, 3, result.InitialStage) || stageAt(result, 4, result.InitialStage) || stageAt(result, 5, result.InitialStage) || \
+//@        stageAt(result, 6, result.InitialStage) || stageAt(result, 7, result.InitialStage))
 //
 // The factories injected into the provider (engine: workflowFactory.createYAMLParser / createWorkflow,
 // verified against the same clauses in package engine).
